@@ -53,7 +53,12 @@ Lexemes(fam) ==
     [] fam = "cls" ->
          <<P(cA), P(cB), P(cSEP), P(cQ), ClsA, ClsNA, ClsAB, ClsSep, P(cKIN), FlagI, ROpen, R12, R1>>
     [] fam = "mini" ->
-         <<P(cA), P(cSEP), P(cSTAR), Tree, Open, Comma, Close, ROpen, R12>>
+         <<P(cA), P(cSEP), P(cSTAR), Tree, Open, Comma, Close, ROpen, R12, R01>>
+    [] fam = "text" ->   \* every string over the meta-characters, the contextual ones, a separator and letters
+         <<P(cQ), P(cSTAR), P(cDOL), P(cCOL), P(cLT), P(cGT), P(cLP), P(cRP), P(cLB), P(cRB), P(cLC), P(cRC),
+           P(cCOM), P(cBS), P(cDASH), P(cBANG), P(cSEP), P(cA), P(cEAC), P(cI), P(49)>>
+    [] fam = "deep" ->
+         <<P(cA), P(cSEP), Open, Comma, Close, ROpen, R12, R01>>
 
 (* The family as a transition system: a state is the text written so far and the stack of   *)
 (* open delimiters; a step appends one lexeme.  Every reachable state with an empty stack    *)
